@@ -844,15 +844,16 @@ impl<'t> Match<'t> {
         match self {
             Self::NoCapture(m) => m.start(),
             Self::WithCapture(m) => {
+                //the begin of the first capture group that was found (group 0 is the overall match and only serves as fallback)
                 let mut begin = None;
-                for group in m.iter() {
+                for group in m.iter().skip(1) {
                     if let Some(group) = group {
-                        if begin.is_none() || begin.unwrap() < group.start() {
+                        if begin.is_none() || group.start() < begin.unwrap() {
                             begin = Some(group.start());
                         }
                     }
                 }
-                begin.expect("there must be at least one capture group that was found")
+                begin.unwrap_or_else(|| m.get(0).expect("overall match must exist").start())
             }
         }
     }
@@ -862,15 +863,16 @@ impl<'t> Match<'t> {
         match self {
             Self::NoCapture(m) => m.end(),
             Self::WithCapture(m) => {
+                //the end of the last capture group that was found (group 0 is the overall match and only serves as fallback)
                 let mut end = None;
-                for group in m.iter() {
+                for group in m.iter().skip(1) {
                     if let Some(group) = group {
-                        if end.is_none() || end.unwrap() < group.start() {
-                            end = Some(group.start());
+                        if end.is_none() || end.unwrap() < group.end() {
+                            end = Some(group.end());
                         }
                     }
                 }
-                end.expect("there must be at least one capture group that was found")
+                end.unwrap_or_else(|| m.get(0).expect("overall match must exist").end())
             }
         }
     }
